@@ -96,11 +96,15 @@ class ItWrite(Case):
 class MaskWrite(Case):
     def __init__(s, T, shape, op, kind):
         sz = prod(shape); a = Buf('a', T, sz, 'inout'); m = Buf('m', 'bool', sz)
-        extra = {'scalar': [Buf('x', T, 1)], 'tensor': [Buf('b', T, sz)], 'expr': [Buf('b', T, sz), Buf('c', T, sz)]}[kind]
-        fr = {'scalar': 'x[0]', 'tensor': 'B', 'expr': '(B+C)'}[kind]
-        sr = {'scalar': 'x[0]', 'tensor': 'b[q]', 'expr': 'b[q]+c[q]' if T in FT else f'({T})(({UT[T]})b[q]+({UT[T]})c[q])'}[kind]
+        extra = {'scalar': [Buf('x', T, 1)], 'tensor': [Buf('b', T, sz)], 'expr': [Buf('b', T, sz), Buf('c', T, sz)], 'mm': [Buf('b', T, sz), Buf('c', T, sz)]}[kind]
+        fr = {'scalar': 'x[0]', 'tensor': 'B', 'expr': '(B+C)', 'mm': '(B % C)'}[kind]
+        sr = {'scalar': 'x[0]', 'tensor': 'b[q]', 'expr': 'b[q]+c[q]' if T in FT else f'({T})(({UT[T]})b[q]+({UT[T]})c[q])', 'mm': None}[kind]
+        if kind == 'mm':     # right-hand side that requires evaluation (lazy matrix product), square 2-D shapes only
+            n = shape[0]
+            terms = [(f'b[(q/{n})*{n}+{k_}]*c[{k_}*{n}+(q%{n})]' if T in FT else f'({UT[T]})b[(q/{n})*{n}+{k_}]*({UT[T]})c[{k_}*{n}+(q%{n})]') for k_ in range(n)]
+            sr = '(' + '+'.join(terms) + ')' if T in FT else f'({T})(' + '+'.join(terms) + ')'
         tt = f'Tensor<{T},{dims(*shape)}>'
-        decl = {'scalar': '', 'tensor': f'{tt} B(b);', 'expr': f'{tt} B(b), C(c);'}[kind]
+        decl = {'scalar': '', 'tensor': f'{tt} B(b);', 'expr': f'{tt} B(b), C(c);', 'mm': f'{tt} B(b), C(c);'}[kind]
         k = f'{tt} A(a); Tensor<bool,{dims(*shape)}> M(m); {decl} A(M) {op} {fr}; ' + copy_out('A', 'a', sz)
         upd = apply_op(T, op, 't_', sr)
         r = f'for(int q=0;q<{sz};++q) {{ {T} t_ = a[q]; {upd} a[q] = m[q] ? t_ : a[q]; }}'
@@ -110,6 +114,7 @@ class MaskWrite(Case):
             return cs
         Case.__init__(s, f'msk_{SHORT[T]}_{"x".join(map(str, shape))}_{OPN[op]}_{kind[:3]}', [a, m] + extra, k, r, desc=f'A(mask) {op} {fr} on {shape} {T}', pre=pre)
         s.dom = 'uf' if T in FT else 'bits'; s.uf_int = T in IT; s.max_paths = 3000; s.timeout = 30
+        if kind == 'mm' and T in FT: s.dom = 'real'; s.uf_int = False
         if T in FT and op == '/=' and kind == 'scalar': s.alt_ref_src = f'{T} rc_ = ({T})1/x[0]; for(int q=0;q<{sz};++q) {{ {T} t_ = a[q]*rc_; a[q] = m[q] ? t_ : a[q]; }}'
 
 
@@ -149,6 +154,8 @@ def cases(tier, cfg, seed):
                 out.append(MaskWrite(T, (7,) if tier == 'quick' else (9,), op, kind))
         out.append(MaskMask(T, 5, '=')); out.append(MaskMask(T, 5, '+='))
         out.append(MaskWrite(T, (3, 3), '=', 'tensor')); out.append(MaskWrite(T, (2, 2, 2), '+=', 'scalar'))
+        for op in OPS:
+            if not (T in IT and op == '/='): out.append(MaskWrite(T, (3, 3) if (T == 'double' and op in ('=', '-=')) or tier != 'quick' else (2, 2), op, 'mm'))
         if tier != 'quick': out.append(ItWrite(T, (17,), 9, '+=', 'tensor')); out.append(MaskWrite(T, (12,), '=', 'tensor'))
     return out
 
